@@ -4,8 +4,8 @@ from ..core import main, close
 from ..tlc import run_tlc, eval_parallel, MachineryError
 from .. import traces as T
 
-PROPS = ["INVARIANT InvGridConsistent", "INVARIANT NoError", "PROPERTY PropExtend", "PROPERTY PropRemesh",
-         "PROPERTY PropAdaptive", "PROPERTY PropReset"]
+PROPS = ["INVARIANT InvGridConsistent", "INVARIANT NoError", "INVARIANT InvRecording", "PROPERTY PropExtend", "PROPERTY PropRemesh",
+         "PROPERTY PropAdaptive", "PROPERTY PropReset", "PROPERTY PropSetToLast"]
 SPIKE_KEY = "pbm:remesh-loses-spike"
 
 
@@ -34,6 +34,18 @@ def compare(o, e, op):
     if not vec_ok(o["size"], e["size"]): bad.append("size")
     if not vec_ok(o["psd"], e["psd"]): bad.append("psd")
     if not e["consistent"]: bad.append("spec:inconsistent")
+    # recorded distributions: rows are zero padded in the code; every recorded row must equal what was recorded
+    if bool(o["hasRec"]) != bool(e["hasRec"]):
+        bad.append("recording-present")
+    elif e["hasRec"]:
+        if len(o["rec"]) != len(e["rec"]):
+            bad.append("recorded-rows")
+        else:
+            for ro, re_ in zip(o["rec"], e["rec"]):
+                nb = len(re_["bounds"])
+                if not close(ro["t"], Fr(*re_["t"]), atol=1e-15): bad.append("recorded-time"); break
+                if not vec_ok(ro["bounds"][:nb], re_["bounds"]) or any(v != 0 for v in ro["bounds"][nb:]): bad.append("recorded-bounds"); break
+                if not vec_ok(ro["psd"][:max(nb - 1, 0)], re_["psd"]) or any(v != 0 for v in ro["psd"][max(nb - 1, 0):]): bad.append("recorded-psd"); break
     if op["op"] == "moments":
         m, em = o["moments"], e["moments"]
         for k in ("m0", "m1", "m2", "m3", "w1"):
